@@ -290,10 +290,8 @@ theorem verifyAppImpl_notHigh (s : Sess) (m : InMsg) (r : Rej) (h : (verifyAppIm
   split at h
   · rename_i r' hv
     simp only [Option.some.injEq] at h; subst h
-    unfold validate at hv
-    split at hv
-    · simp only [Option.some.injEq] at hv; subst hv; rfl
-    · cases hv
+    obtain ⟨_, _, rfl⟩ := validate_plain hv
+    rfl
   · simp only [] at h
     unfold callbackVerdict at h
     split at h <;> first | (simp only [Option.some.injEq] at h; subst h; rfl) | cases h
@@ -975,7 +973,7 @@ theorem resendFixMsgIn_high (s : Sess) (stash : List (Int × InMsg)) (cur fin : 
 
 /-! ## in-sequence messages -/
 
-theorem verifyAppImpl_clean (s : Sess) (m : InMsg) (hv : validate m = none) :
+theorem verifyAppImpl_clean (s : Sess) (m : InMsg) (hv : validate s.cfg m = none) :
     verifyAppImpl s m = (s.emit (cbObs s m), callbackVerdict m) := by
   unfold verifyAppImpl cbObs
   simp only [hv]
@@ -985,7 +983,7 @@ theorem verifyAppImpl_clean (s : Sess) (m : InMsg) (hv : validate m = none) :
 theorem handleTestRequest_exact (s : Sess) (m : InMsg) (x : String)
     (hb : checkBeginString s m = none) (hc : checkCompID s m = none)
     (ht : (curResend s).isSome = true ∨ checkSendingTime s m = none)
-    (hn : getInt m 34 = .val s.store.target) (hv : validate m = none) (hcb : callbackVerdict m = none)
+    (hn : getInt m 34 = .val s.store.target) (hv : validate s.cfg m = none) (hcb : callbackVerdict m = none)
     (hx : m.f.get? 112 = some x) :
     handleTestRequest s m =
       (incrTarget (sendInReplyTo (s.emit (cbObs s m)) ((mkOut "0" [(112, x)]).inReplyTo m)), .inSession) := by
@@ -996,7 +994,7 @@ theorem handleTestRequest_exact (s : Sess) (m : InMsg) (x : String)
 theorem inSessionFixMsgIn_testRequest (s : Sess) (m : InMsg) (x : String) (hk : kindOf m = "1")
     (hb : checkBeginString s m = none) (hc : checkCompID s m = none)
     (ht : (curResend s).isSome = true ∨ checkSendingTime s m = none)
-    (hn : getInt m 34 = .val s.store.target) (hv : validate m = none) (hcb : callbackVerdict m = none)
+    (hn : getInt m 34 = .val s.store.target) (hv : validate s.cfg m = none) (hcb : callbackVerdict m = none)
     (hx : m.f.get? 112 = some x) :
     inSessionFixMsgIn s m =
       (incrTarget (sendInReplyTo (s.emit (.fromAdmin "1" (seqText m))) ((mkOut "0" [(112, x)]).inReplyTo m)), .inSession) := by
@@ -1010,7 +1008,7 @@ theorem inSessionFixMsgIn_testRequest (s : Sess) (m : InMsg) (x : String) (hk : 
 theorem inSessionFixMsgIn_plain (s : Sess) (m : InMsg) (hk : PlainKind m)
     (hb : checkBeginString s m = none) (hc : checkCompID s m = none)
     (ht : (curResend s).isSome = true ∨ checkSendingTime s m = none)
-    (hn : getInt m 34 = .val s.store.target) (hv : validate m = none) (hcb : callbackVerdict m = none) :
+    (hn : getInt m 34 = .val s.store.target) (hv : validate s.cfg m = none) (hcb : callbackVerdict m = none) :
     inSessionFixMsgIn s m = (incrTarget (s.emit (cbObs s m)), .inSession) := by
   unfold inSessionFixMsgIn
   have h1 : (kindOf m == "A") = false := by simpa using hk.notLogon
@@ -1145,7 +1143,7 @@ theorem verifySelect_logon_pass (s : Sess) (m : InMsg) (n : Int)
     against the unchanged expected number -/
 theorem handleLogon_gap (s : Sess) (m : InMsg) (n : Int)
     (hfixt : (s.cfg.bs == 5 && !(m.f.has 1137)) = false)
-    (hv : validate m = none) (hcb : callbackVerdict m = none)
+    (hv : validate s.cfg m = none) (hcb : callbackVerdict m = none)
     (hr1 : (if s.cfg.initiator then false else s.cfg.resetOnLogon) = false) (hr2 : logonResetFlag m = false)
     (hb : checkBeginString s m = none) (hc : checkCompID s m = none)
     (ht : (curResend s).isSome = true ∨ checkSendingTime s m = none)
@@ -1156,7 +1154,7 @@ theorem handleLogon_gap (s : Sess) (m : InMsg) (n : Int)
   generalize hs1 : (if (!s.cfg.initiator && s.cfg.refreshOnLogon) = true then s.emit Obs.refresh else s) = s1
   have k1 : Kept s s1 := by rw [← hs1]; split <;> exact ⟨rfl, rfl, rfl⟩
   have sr1 : s1.sentReset = s.sentReset := by rw [← hs1]; split <;> rfl
-  simp only [verifyAppImpl_clean s1 m hv, hcb]
+  simp only [verifyAppImpl_clean s1 m (by rw [k1.cfg]; exact hv), hcb]
   have k2 : Kept s (s1.emit (cbObs s1 m)) := k1.trans ⟨rfl, rfl, rfl⟩
   have hcond : ((if (s1.emit (cbObs s1 m)).cfg.initiator = true then false else (s1.emit (cbObs s1 m)).cfg.resetOnLogon) ||
       logonResetFlag m && !(s1.emit (cbObs s1 m)).sentReset) = false := by
@@ -1254,7 +1252,7 @@ theorem resendFixMsgIn_left (s : Sess) (stash : List (Int × InMsg)) (cur fin : 
 
 theorem Clean.congr {s s' : Sess} {n : Int} {m : InMsg} (h : Clean s n m) (hc : s'.cfg = s.cfg) : Clean s' n m :=
   ⟨h.kind, by have := h.bs; unfold checkBeginString at this ⊢; rw [hc]; exact this,
-   by have := h.comp; unfold checkCompID at this ⊢; rw [hc]; exact this, h.seq, h.valid, h.accepted⟩
+   by have := h.comp; unfold checkCompID at this ⊢; rw [hc]; exact this, h.seq, by rw [hc]; exact h.valid, h.accepted⟩
 
 theorem deliver_target (s : Sess) (m : InMsg) : (deliver s m).store.target = s.store.target + 1 := rfl
 theorem deliver_cfg (s : Sess) (m : InMsg) : (deliver s m).cfg = s.cfg := rfl
